@@ -27,6 +27,9 @@ func contractServes(c *Contract, prop string) bool {
 	for _, l := range c.Loops {
 		all = append(all, l.Invariants...)
 	}
+	for _, l := range c.Ranges {
+		all = append(all, l.Invariants...)
+	}
 	for _, cl := range all {
 		if hasProp(cl.Props, prop) {
 			return true
